@@ -23,6 +23,12 @@ def in_unit(x) -> bool:
     return x is not None and 0 <= x <= 1
 
 
+def _score(arr, where, value):
+    # an absent (None) score is no score: nothing to lie in [0,1]
+    if value is not None:
+        arr["scores"].append((where, value))
+
+
 def check(arr) -> list:
     """Return the list of broken invariants as (invariant, where)."""
     broken = []
@@ -78,7 +84,7 @@ def from_canon(canon) -> dict:
     def walk_scores(value):
         if isinstance(value, dict):
             if value.get("__type") == "PredictedTag":
-                arr["scores"].append(("PredictedTag.score", value["score"]))
+                _score(arr, "PredictedTag.score", value["score"])
             for item in value.values():
                 walk_scores(item)
         elif isinstance(value, list):
@@ -130,7 +136,7 @@ def from_canon(canon) -> dict:
                 }
             )
         elif kind in ("SoundEventPrediction", "SequencePrediction"):
-            arr["scores"].append((f"{kind}.score", b["score"]))
+            _score(arr, f"{kind}.score", b["score"])
         elif kind == "AnnotationProject":
             arr["projects"].append(
                 {
